@@ -300,6 +300,10 @@ def value_of(vs, width: int) -> tuple:
         return str(v), v
     if form == "bin" and v >= 0:
         return "0b" + bin(v)[2:], v
+    if form == "hexu" and v >= 0:
+        return "0X" + format(v, "X"), v
+    if form == "binu" and v >= 0:
+        return "0B" + bin(v)[2:], v
     return v, v
 
 
@@ -627,7 +631,15 @@ class Run:
                 except Exception as exc:  # pylint: disable=broad-except
                     self.violation("config-roundtrip", f"load:{type(exc).__name__}", f"{label}: loading the object's own configuration failed: {type(exc).__name__}: {exc}")
                 else:
-                    for site, msg in compare(twin, m, f"{label}: twin after load_yml_config(get_config(diff={diff}))"):
+                    want = m
+                    if any(r.get("uncovered") for r in layout["regs"]):
+                        # bits that belong to no bit-field are not part of a configuration: they come back as the reset value
+                        want = copy.deepcopy(m)
+                        for r in layout["regs"]:
+                            if r.get("uncovered"):
+                                cov = (1 << (r["width"] - r["uncovered"])) - 1
+                                want.val[r["uid"]] = (m.val[r["uid"]] & cov) | (m.reset[r["uid"]] & ~cov)
+                    for site, msg in compare(twin, want, f"{label}: twin after load_yml_config(get_config(diff={diff}))"):
                         self.violation("config-roundtrip", site, msg)
                 self.probe("config_roundtrip")
             elif name == "query":
@@ -832,6 +844,9 @@ def gen_layout(rng: random.Random) -> dict:
                 # handled inconsistently by SPSDK (external vs stored domain) and is outside what the property states
                 if not any(b.get("reset") or b.get("shift") for b in r["bitfields"]) and rng.random() < 0.4:
                     r["reset"] = rng.randrange(1 << w)
+                if len(r["bitfields"]) >= 2 and rng.random() < 0.1 and not r["bitfields"][-1].get("reset"):
+                    # a custom layout whose bit-fields do not cover the whole register: the top bits belong to no field
+                    r["uncovered"] = r["bitfields"].pop()["width"]
             elif rng.random() < 0.5:
                 r["reset"] = rng.randrange(1 << w)
             regs.append(r)
@@ -845,7 +860,7 @@ def gen_layout(rng: random.Random) -> dict:
 
 def gen_val(rng: random.Random) -> list:
     kind = rng.choice(["zero", "one", "max", "max", "pow", "pow", "pow1", "big", "neg", "rnd", "rnd", "rnd", "rnd", "bit"])
-    return [kind, rng.randrange(1 << 62), rng.choice(["int", "int", "int", "hex", "dec", "bin"])]
+    return [kind, rng.randrange(1 << 62), rng.choice(["int", "int", "int", "hex", "dec", "bin", "hexu", "binu"])]
 
 
 def gen_op(rng: random.Random) -> dict:
